@@ -51,10 +51,11 @@ theorem emplaceAtomic_uint32_reject (enc : Option Enc) (he : enc = none ∨ enc 
 
 /-- a value the object cannot represent is rejected by the parameter's encoder with `EncodeError` (or, for a
     negative `A_UINT32`, a plain `OdxError`) -/
-theorem encodeParam_obj_bad (o : Obj) (ho : o.ok) (values : List (String × PVal)) (hp : o.pick values = none)
-    (fuel : Nat) (s : EncState) :
+theorem encodeParam_obj_bad (o : Obj) (ho : o.ok) (hint : o.isInt) (values : List (String × PVal))
+    (hp : o.pick values = none) (fuel : Nat) (s : EncState) :
     ∃ e s', encodeParam (fuel + 2) o.toParam (lookupV o.name values) s true = .error (e, s') ∧ EncErr e := by
   obtain ⟨hk, hbl, hbl64⟩ := ho
+  unfold Obj.isInt at hint
   unfold Obj.pick at hp
   cases hl : lookup o.name values with
   | none =>
@@ -88,7 +89,8 @@ theorem encodeParam_obj_bad (o : Obj) (ho : o.ok) (values : List (String × PVal
         · rw [h] at hp; simp at hp
       unfold Obj.accepts at hacc
       unfold Obj.encOk at hk
-      cases hkind : o.kind <;> cases a <;> simp only [hkind] at hacc hk
+      cases hkind : o.kind <;> simp only [hkind, reduceCtorEq, or_self, or_false, false_or] at hint <;>
+        cases a <;> simp only [hkind] at hacc hk
       -- integer atoms: out of range
       case int32.int v =>
         have hr : ¬ int32InRange o.enc o.bl v := by
@@ -120,7 +122,7 @@ theorem encodeParam_obj_bad (o : Obj) (ho : o.ok) (values : List (String × PVal
 
 /-- if some object of the list has no representable value, the first loop of the composite encoder fails
     with `EncodeError` (or `OdxError` for a negative unsigned value) -/
-theorem encodeParams_objs_bad (os : List Obj) (hok : ∀ o ∈ os, o.ok) (values : List (String × PVal)) (eop : Bool)
+theorem encodeParams_objs_bad (os : List Obj) (hok : ∀ o ∈ os, o.ok ∧ o.isInt) (values : List (String × PVal)) (eop : Bool)
     (extra : Nat) (hbad : ∃ o ∈ os, o.pick values = none) :
     ∀ (s : EncState), ∃ e s', encodeParams eop values (os.length + 2 + extra) (os.map Obj.toParam) s true =
       .error (e, s') ∧ EncErr e := by
@@ -128,14 +130,14 @@ theorem encodeParams_objs_bad (os : List Obj) (hok : ∀ o ∈ os, o.ok) (values
   | nil => obtain ⟨o, ho, _⟩ := hbad; cases ho
   | cons o rest ih =>
     intro s
-    have ho := hok o (List.mem_cons_self ..)
+    obtain ⟨ho, hoi⟩ := hok o (List.mem_cons_self ..)
     have e1 : (o :: rest).length + 2 + extra = (rest.length + 2 + extra) + 1 := by simp; omega
     have e2 : rest.length + 2 + extra = rest.length + extra + 2 := by omega
     let sm : EncState := if rest.isEmpty then { s with isEndOfPdu := eop } else s
     cases hp : o.pick values with
     | none =>
       -- this object is the one that is rejected: either by the "required parameter" check or by its own encoder
-      obtain ⟨e, s', hbadp, he⟩ := encodeParam_obj_bad o ho values hp (rest.length + extra) sm
+      obtain ⟨e, s', hbadp, he⟩ := encodeParam_obj_bad o ho hoi values hp (rest.length + extra) sm
       rw [e1]
       simp only [List.map_cons, encodeParams, Obj.toParam]
       simp only [Obj.toParam] at hbadp
@@ -205,7 +207,7 @@ theorem encodeMessage_flat_unknown (os : List Obj) (values : List (String × PVa
     if_true, odxraise, ne_eq, not_true_eq_false, if_false]
 
 /-- `Request.encode` when some object has no representable value: `EncodeError` / `OdxError` -/
-theorem encodeMessage_flat_bad (os : List Obj) (hlen : os.length ≤ 4000) (hok : ∀ o ∈ os, o.ok)
+theorem encodeMessage_flat_bad (os : List Obj) (hlen : os.length ≤ 4000) (hok : ∀ o ∈ os, o.ok ∧ o.isInt)
     (values : List (String × PVal)) (trig : Option Bytes)
     (hknown : values.any (fun kv => !((os.map Obj.toParam).any fun p => p.name == kv.1)) = false)
     (hbad : ∃ o ∈ os, o.pick values = none) :
